@@ -296,8 +296,8 @@ func (g *Gateway) errorHandler(w http.ResponseWriter, r *http.Request, e error) 
 	}
 
 	if errors.Is(e, context.Canceled) ||
-		errors.Is(e, io.EOF) {
-		// this is expected
+		(errors.Is(e, io.EOF) && r.Context().Err() != nil) {
+		// this is expected: the requester went away
 		return
 	}
 
